@@ -720,6 +720,26 @@ func c11DecodeJSON(b []byte) (v types.Value, bad string) {
 	if err := types.UnmarshalJSON(b, &out); err != nil {
 		return nil, "unmarshal error: " + err.Error()
 	}
+	// the typed decoders, with a receiver that already holds a value: the result is the
+	// document's value, not a mixture with what the receiver held
+	switch t := out.(type) {
+	case types.Record:
+		used := types.NewRecord(types.RecordMap{"c11-stale": types.Long(1)})
+		if err := used.UnmarshalJSON(b); err != nil {
+			return nil, "Record.UnmarshalJSON into a used receiver: unmarshal error: " + err.Error()
+		}
+		if !used.Equal(t) || used.Len() != t.Len() {
+			return nil, "Record.UnmarshalJSON into a used receiver gives " + string(used.MarshalCedar())
+		}
+	case types.Set:
+		used := types.NewSet(types.String("c11-stale"))
+		if err := used.UnmarshalJSON(b); err != nil {
+			return nil, "Set.UnmarshalJSON into a used receiver: unmarshal error: " + err.Error()
+		}
+		if !used.Equal(t) || used.Len() != t.Len() {
+			return nil, "Set.UnmarshalJSON into a used receiver gives " + string(used.MarshalCedar())
+		}
+	}
 	return out, ""
 }
 
